@@ -13,10 +13,15 @@ claim("C13",
       "model against path::resolve/normalize through a cfg hook, plus an independent reference-resolver oracle on the implementation. lookup_order (GE/Thm/C13Link.lean): over the "
       "model of the lookup table the emitted code builds (GE/Model/Link.lean: Object.assign({}, G[p1]._, …, H); delete S[\"\"]), a <template is> finds a local definition first, otherwise "
       "the definition in the LAST import whose target is registered and defines the name, never the main template - any files, any import list, any name; tied by corr:link to what the "
-      "real compiler + runtime instantiate on generated multi-file groups.",
-      "Trusted: Lean kernel; axioms ⊆ {propext, Classical.choice, Quot.sound}; the hand-written models (path: exhaustive correspondence up to 4 segments; link: generated groups); "
-      "harness codec; python reference resolver; JavaScript objects modelled as association lists. Dependency queries and insertion-order independence are exercised by the oracle only.",
-      "Lean 4 proof over models (path resolution; template lookup order) + exhaustive / generated model-implementation correspondence + multi-file oracle")
+      "real compiler + runtime instantiate on generated multi-file groups. leaves_parse (GE/Thm/C13Leaves.lean): over the tag-level model of the parser (GE/Model/TagTree.lean), the tree "
+      "keeps exactly the <include> / <template is> elements of the source, in document order, for every sequence of tags whose wx:if groups have the shape wx:if, wx:elif*, wx:else? "
+      "(an include carrying wx:elif / wx:else or wx:for, at any depth, behind comments) - every include the rendering can reach is a source reference; second_else_loses shows the "
+      "hypothesis is needed. Tied by corr:tagtree / corr:tagleaves (leaves of the real tree vs the model's); oracle: direct_dependencies = every <import> / <include> tag of generated tag "
+      "sequences, and every include element of the real tree is listed.",
+      "Trusted: Lean kernel; axioms ⊆ {propext, Classical.choice, Quot.sound}; the hand-written models (path: exhaustive correspondence up to 4 segments; link: generated groups; tag tree: generated "
+      "tag sequences); harness codec; python reference resolver; JavaScript objects modelled as association lists. That the dependency queries list exactly the references (the collection in "
+      "Element::parse is at character level) and insertion-order independence are exercised by the oracles only.",
+      "Lean 4 proof over models (path resolution; template lookup order; include elements kept by the tree) + exhaustive / generated model-implementation correspondence + multi-file and tag-level dependency oracles")
 
 claim("C12",
       "Lean 4 theorem decode_genLitStr: for every string, ECMAScript (strict and sloppy; spec written from ECMA-262) decodes the literal "
